@@ -43,6 +43,7 @@ type childResult struct {
 	events  map[string][][2]string
 	stamps  map[string]string
 	wires   map[string]string
+	rounds  []map[string][][2]string // watch mode: events per round (0 = the build after Load)
 	order   []string
 }
 
@@ -54,6 +55,9 @@ func runChild(dir, mode, order string, graph, full bool, flags []string, timeout
 
 func runChildW(dir, mode, order string, graph, full, wire bool, flags []string, timeout time.Duration) *childResult {
 	args := []string{"-child", mode, "-root", dir, "-order", order}
+	if strings.HasPrefix(mode, "watch:") {
+		args = []string{"-child", "watch", "-script", strings.TrimPrefix(mode, "watch:"), "-root", dir, "-order", order}
+	}
 	if mode == "build-always" {
 		args = []string{"-child", "build", "-always", "-root", dir, "-order", order}
 	}
@@ -114,8 +118,16 @@ func runChildW(dir, mode, order string, graph, full, wire bool, flags []string, 
 			res.order = append(res.order, f[1])
 		case "G":
 			res.graphs[f[1]] = [3]string{f[2], f[3], f[4]}
+		case "K":
+			res.rounds = append(res.rounds, map[string][][2]string{})
+			if len(f) > 2 {
+				res.rounds[len(res.rounds)-1]["-"] = append(res.rounds[len(res.rounds)-1]["-"], [2]string{f[2], ""})
+			}
 		case "E":
 			res.events[f[1]] = append(res.events[f[1]], [2]string{f[2], f[3]})
+			if n := len(res.rounds); n > 0 {
+				res.rounds[n-1][f[1]] = append(res.rounds[n-1][f[1]], [2]string{f[2], f[3]})
+			}
 		case "R":
 			res.stamps[f[1]] = f[2]
 		case "W":
@@ -157,6 +169,7 @@ var (
 	cfgBits = "101111"
 	decideRule = "fixed"
 	reasonRule = "safe"
+	watchEvery = 9
 )
 
 func count(k string, n int) { outMu.Lock(); stats[k] += n; outMu.Unlock() }
@@ -237,6 +250,7 @@ const envErr = "function environment" // "computing function environment: …", 
 type judgeOpts struct {
 	maxMuts    int
 	maxRebuild int
+	watch      bool
 	corr    bool
 	build   bool
 	timeout time.Duration
@@ -580,6 +594,130 @@ func judge(p *Program, dir string, r *rng, o judgeOpts, only *Mutation) {
 			}
 		}
 	}
+	// 6. the same in ONE long-lived process (watch mode, REPL): Load once; per round edit, Reload, Run. Nothing that is
+	// kept across Reload may stand in for the fingerprint of the reloaded function.
+	if o.watch && only == nil {
+		var rounds []Mutation
+		text := map[string]string{}
+		for f, c := range p.Files {
+			text[f] = c
+		}
+		for _, m := range p.Muts {
+			if m.Kind == "sens" && len(rounds) < 2 && strings.Count(text[m.File], m.Old) == 1 && len(m.Targets) > 0 {
+				text[m.File] = strings.Replace(text[m.File], m.Old, m.New, 1)
+				rounds = append(rounds, m)
+			}
+		}
+		for _, m := range p.Muts {
+			if m.Kind == "insens" && m.Feature == "comments" && strings.Count(text[m.File], m.Old) == 1 {
+				rounds = append(rounds, m)
+				break
+			}
+		}
+		if len(rounds) >= 2 {
+			// ground truth for every round, from fresh processes: the fingerprints of the project as it is after the edits of
+			// rounds 1..i (an earlier edit can take a later one out of a target's environment, so the table's "targets" of a
+			// mutation hold for the unedited program only). A target must re-execute in round i exactly when its fingerprint
+			// after round i differs from the one after round i-1.
+			states := []map[string]fpEntry{}
+			cur := map[string]string{}
+			for f, c := range p.Files {
+				cur[f] = c
+			}
+			okStates := true
+			for i := 0; i <= len(rounds); i++ {
+				if i > 0 {
+					m := rounds[i-1]
+					cur[m.File] = strings.Replace(cur[m.File], m.Old, m.New, 1)
+				}
+				writeFiles(dir, cur)
+				fc := runChild(dir, "fp", "fwd", false, false, p.Flags, o.timeout)
+				count("child_runs", 1)
+				if fc.status != "ok" || fc.loadErr != "" {
+					okStates = false
+					break
+				}
+				states = append(states, fc.fps)
+			}
+			os.RemoveAll(filepath.Join(dir, ".dawn"))
+			writeFiles(dir, p.Files)
+			if !okStates {
+				hist("watch_skipped", "state-does-not-load")
+				hist("outcome", "judged")
+				return
+			}
+			script := filepath.Join(dir, "watch-script.json")
+			sb, _ := json.Marshal(rounds)
+			os.WriteFile(script, sb, 0644)
+			w := runChild(dir, "watch:"+script, "fwd", false, false, p.Flags, o.timeout)
+			writeFiles(dir, p.Files)
+			count("child_runs", 1)
+			count("watch_programs", 1)
+			if w.status != "ok" && w.variant != "" {
+				violation(w.status+"-after-reload", firstFeature(p), "", "one process, Load then edit / Reload / Run: "+w.detail, p, nil)
+			}
+			// a target is "settled" after a round when that round left a record of a successful run (or found it up to date);
+			// after a failed or skipped run the next round legitimately runs it again whatever its fingerprint
+			settled := map[string]bool{}
+			note := func(evs map[string][][2]string) {
+				for lbl, es := range evs {
+					ok := false
+					for _, ev := range es {
+						switch ev[0] {
+						case "succeeded", "uptodate":
+							ok = true
+						case "failed", "run-error", "reload-error":
+							ok = false
+						}
+					}
+					settled[lbl] = ok
+				}
+			}
+			if len(w.rounds) > 0 {
+				note(w.rounds[0])
+			}
+			for i, m := range rounds {
+				if i+1 >= len(w.rounds) {
+					break
+				}
+				evs := w.rounds[i+1]
+				if _, bad := evs["-"]; bad {
+					hist("watch_skipped", m.Feature)
+					break
+				}
+				for _, lbl := range a.order {
+					before, ok0 := states[i][lbl]
+					after, ok1 := states[i+1][lbl]
+					if !ok0 || !ok1 || before.Err != "" || after.Err != "" || !settled[lbl] {
+						continue
+					}
+					ran, dep, up, reason := false, false, false, ""
+					for _, ev := range evs[lbl] {
+						switch {
+						case ev[0] == "evaluating":
+							ran, reason = true, ev[1]
+						case (ev[0] == "failed" || ev[0] == "run-error") && strings.Contains(ev[1], "dependency"):
+							dep = true
+						case ev[0] == "uptodate":
+							up = true
+						}
+					}
+					if dep && !ran {
+						continue
+					}
+					count("watch_round_targets", 1)
+					mm := m
+					if before.Sha != after.Sha && !ran && up {
+						violation("stale-after-reload", m.Feature, lbl, fmt.Sprintf("use of the fingerprint (property C01), one long-lived process: edit %d (%s) changes the target's fingerprint (fresh processes: %s -> %s), but after Reload the build reports the target up to date and does not re-execute it", i+1, m.What, before.Sha[:12], after.Sha[:12]), p, &mm)
+					}
+					if before.Sha == after.Sha && ran && !strings.Contains(reason, "dependencies") {
+						violation("rerun-after-reload", firstFeature(p), lbl, fmt.Sprintf("one long-lived process: edit %d (%s) leaves the target's fingerprint unchanged (fresh processes: %s) and the previous round built it, but after Reload the target re-executes: %s", i+1, m.What, before.Sha[:12], reason), p, &mm)
+					}
+				}
+				note(evs)
+			}
+		}
+	}
 	hist("outcome", "judged")
 }
 
@@ -597,6 +735,7 @@ func main() {
 	graph := flag.Bool("graph", false, "")
 	full := flag.Bool("full", false, "")
 	wire := flag.Bool("wire", false, "")
+	scriptFlag := flag.String("script", "", "child watch mode: json file with the rounds of edits")
 	always := flag.Bool("always", false, "child build mode: RunOptions{Always: true}")
 	cflags := flag.String("flags", "", "")
 	seed := flag.Uint64("seed", 1, "")
@@ -619,7 +758,7 @@ func main() {
 		if *cflags != "" {
 			fl = strings.Split(*cflags, "\x1f")
 		}
-		os.Exit(childMain(*child, *root, *order, *graph, *full, *wire, *always, fl))
+		os.Exit(childMain(*child, *root, *order, *graph, *full, *wire, *always, fl, *scriptFlag))
 	}
 	selfExe, _ = os.Executable()
 	cfgBits = *cfg
@@ -674,8 +813,10 @@ func main() {
 	start := time.Now()
 	limit := 40 * time.Second
 	nprog, maxMuts, maxRebuild := 100000, 5, 2
+	watchEvery = 9
 	if *tier == "thorough" {
 		limit, maxMuts, maxRebuild = 480*time.Second, 14, 4
+		watchEvery = 3
 	}
 	if *budget > 0 {
 		limit = time.Duration(*budget) * time.Second
@@ -726,7 +867,7 @@ func main() {
 			for j := range jobs {
 				r := &rng{*seed*1000003 + uint64(j.idx)*7919 + 17}
 				judge(j.p, filepath.Join(*scratch, fmt.Sprintf("p%d", j.idx)), r,
-					judgeOpts{maxMuts: maxMuts, maxRebuild: maxRebuild, corr: j.idx%3 == 0 || j.idx < 200, build: true, timeout: timeout}, nil)
+					judgeOpts{maxMuts: maxMuts, maxRebuild: maxRebuild, corr: j.idx%3 == 0 || j.idx < 200, build: true, watch: j.idx%watchEvery == 0, timeout: timeout}, nil)
 			}
 		}(w)
 	}
